@@ -497,6 +497,8 @@ def zoo_cases(rng, tier, ids=None):
         if ids is not None and tid not in ids:
             continue
         for style, n in (("zero", max(8, n_rand // 8)), ("rand", n_rand), ("big", max(6, n_rand // 10))):
+            if tid == 19:
+                n = max(4, n // 6)     # every non-empty outer list costs a watchdog trip in the harness
             for _ in range(n):
                 cases.append((tid, gen_val(t, rng, style)))
         for v in all_alternatives(t, rng):
@@ -684,7 +686,7 @@ class C17(Spec):
         o = list(map(int, out.split()))
         op = a[0]
         dev = build[1] == "dev"
-        if o[:1] == [3]:
+        if len(o) == 2 and o[0] == 3 and o[1] in (31, 32):
             return ("proto_crash_or_hang", "harness child died or hung: %s" % out)
         if op in (4001, 4002, 4003, 4005, 4006, 4007):
             if o[0] in (2,) and len(o) == 2:
@@ -767,6 +769,8 @@ class C17(Spec):
                     cls = "bitvec_excess_bytes"
                 elif shape in ("optional_null_shifts_fields", "choice_list_alternative"):
                     cls = shape
+                elif has(t, lambda x: x[0] == "list" and x[1][0] == "list"):
+                    cls = "nested_list_flattened"
                 else:
                     cls = "roundtrip_not_peq"
                 return (cls, "read back %s for %s" % (str(back)[:90], str(v)[:90]))
@@ -782,7 +786,7 @@ class C17(Spec):
                     cls = "nested_list_read_unbounded" if tid == 19 else "index_enclosed_unbounded"
                 elif c == 2:
                     cls = "index_enclosed_length_overflow"
-                elif c == 6:
+                elif c == 6 or (c == 9 and not dev):
                     cls = "index_enclosed_trusts_lengths"
                 else:
                     cls = "read_panic_other"
@@ -809,9 +813,9 @@ class C17(Spec):
         return len(a) > 3
 
 
-C17.theorems = ["C17_varint_roundtrip", "C17_zigzag32_roundtrip", "C17_zigzag64_roundtrip", "C17_tag_roundtrip",
-                "C17_roundtrip_partial", "C17_backends_agree",
+C17.theorems = ["C17_varint_roundtrip", "C17_zigzag_roundtrip", "C17_tag_roundtrip", "C17_number_roundtrip",
+                "C17_roundtrip_partial", "C17_roundtrip_flat_partial", "C17_backends_agree_partial",
                 "C17_refuted_optional_null", "C17_refuted_choice_null", "C17_refuted_choice_list",
-                "C17_refuted_nested_list", "C04_proto_refuted_bit_vec_short", "C04_proto_refuted_length_overflow",
-                "C04_proto_refuted_trusted_length"]
+                "C17_refuted_nested_list", "C17_refuted_bitvec_excess", "C04_proto_refuted_bit_vec_short",
+                "C04_proto_refuted_length_overflow", "C04_proto_refuted_trusted_length"]
 SPEC = C17()
